@@ -44,14 +44,17 @@ def rng(tag):
 
 
 _rundir = None
+_rundir_lock = __import__("threading").Lock()
 
 
 def rundir():
     global _rundir
-    if _rundir is None:
-        _rundir = os.path.join(WORK, "run-%d" % os.getpid())
-        shutil.rmtree(_rundir, ignore_errors=True)
-        os.makedirs(_rundir, exist_ok=True)
+    with _rundir_lock:
+        if _rundir is None:
+            d = os.path.join(WORK, "run-%d" % os.getpid())
+            shutil.rmtree(d, ignore_errors=True)
+            os.makedirs(d, exist_ok=True)
+            _rundir = d
     return _rundir
 
 
@@ -294,7 +297,11 @@ def run_tlc(module, cfg, workers=1, env=None, timeout=1800, xmx="4g", simulate=N
     elif p.returncode != 0 and "Postcondition" in out and "violated" in out.lower():
         res["violation"] = "postcondition"
     elif p.returncode != 0:
-        log(out[-3000:])
+        for i, ln in enumerate(lines):
+            if ln.startswith("Error:") or "Attempted" in ln:
+                log("\n".join(lines[i:i + 6]))
+                break
+        log(out[-1500:])
         raise ToolError("TLC failed on %s/%s rc=%d" % (module, cfg, p.returncode))
     return res
 
